@@ -60,6 +60,156 @@ def _terms(c03, desc, model):
   return out
 
 
+def _e2e_term(c03, desc, model):
+  """Coq case of Harness/H_C03E2E.v: the CONFIG of the model (not its layers) + points and the fresh model's outputs."""
+  m = desc["model"]
+  layers = {l.name: l for l in model.layers}
+  feats = []
+  for f in desc["features"]:
+    if f["type"] == "cat":
+      kern = [float(v) for v in layers["tfl_calib_" + f["name"]].kernel.numpy()[:, 0]]
+      dv = "None" if f["default"] is None else "(Some (%d)%%Z)" % int(f["default"])
+      feats.append("(FCat %s %s %s %s %s)" % (cnatpairs(f["pairs"]), cnat(f["nb"]), dv, cql(kern), cnat(f["ls"])))
+    else:
+      feats.append("(FNum (%d)%%Z %s %s (%d)%%Z %s %s)" % (
+          int(f["dir"]), cbool(bool(f.get("always_monotonic", False))), cql([float(v) for v in f["kps"]]),
+          int(f.get("convexity", 0)), copt(f["default"]), cnat(f["ls"])))
+  rows, _ = c03._grid(desc)
+  pick = list(range(0, min(24, len(rows)), 3)) + list(range(24, len(rows), max(1, (len(rows) - 24) // 6)))[:6]
+  sel = [rows[i] for i in pick]
+  out = model(c03._inputs(desc, sel), training=False).numpy().reshape(-1).astype(np.float64)
+  raws = _feasible_update(desc, model)
+  out2 = model(c03._inputs(desc, sel), training=False).numpy().reshape(-1).astype(np.float64)
+  return "(mkC %s %s %s %s %s %s %s %s %s %s %s %s)" % (
+      cbool(m["kind"] == "linear"), clist(feats), cbool(m["interpolation"] == "simplex"), cbool(bool(m["output_calibration"])),
+      cbool(bool(m.get("use_bias", False))), copt(m["output_min"]), copt(m["output_max"]),
+      cql([float(v) for v in m["output_init"]]), cqm([[float(v) for v in r] for r in sel]), cql([float(v) for v in out]),
+      clist(raws), cql([float(v) for v in out2]))
+
+
+def _span(lo, hi):
+  """a non-empty interval inside the (possibly one-sided / absent) bounds"""
+  if lo is None and hi is None:
+    return -1.0, 2.0
+  if lo is None:
+    return hi - 3.0, hi
+  if hi is None:
+    return lo, lo + 3.0
+  return lo, hi
+
+
+def _f32(v):
+  return [float(x) for x in np.asarray(v, dtype=np.float32)]
+
+
+def _feasible_update(desc, model):
+  """One optimizer-style update of the real model with raw values that are non-trivial (non-linear kernel,
+  curved calibrators) but FEASIBLE: every variable is assigned, then every constraint is applied (what
+  tf_keras Optimizer.apply_gradients does).  Returns the raw values as Coq rawv terms in state order."""
+  m = desc["model"]
+  layers = {l.name: l for l in model.layers}
+  lattice = m["kind"] == "lattice"
+  raws = []
+  for f in desc["features"]:
+    l = layers["tfl_calib_" + f["name"]]
+    if lattice:
+      lo, hi = 0.0, f["ls"] - 1.0
+    elif m["output_calibration"]:
+      lo, hi = 0.0, 1.0
+    else:
+      lo, hi = _span(m["output_min"], m["output_max"])
+    if f["type"] == "cat":
+      k0 = l.kernel.numpy()[:, 0].astype(np.float64)
+      vals = _f32(lo + (k0 - lo) * 0.5 + (hi - lo) * 0.125)
+      l.kernel.assign(np.asarray(vals, dtype=np.float32).reshape(-1, 1))
+      raws.append("(RCat %s)" % cql(vals))
+      continue
+    k = np.asarray(f["kps"], dtype=np.float64)
+    t = (k - k[0]) / (k[-1] - k[0])
+    mono = f["dir"] if f["dir"] != 0 else (1 if f.get("always_monotonic", False) else 0)
+    conv = int(f.get("convexity", 0))
+    if mono == -1:
+      t = 1.0 - t
+    if conv == -1:
+      y = 1.0 - (1.0 - t) ** 2
+    elif conv == 1 or mono != 0:
+      y = t ** 2
+    else:
+      y = (2.0 * t - 1.0) ** 2
+    outs = lo + (hi - lo) * (0.125 + 0.75 * y)
+    col = _f32([outs[0]] + list(np.diff(outs)))
+    l.kernel.assign(np.asarray(col, dtype=np.float32).reshape(-1, 1))
+    mo = "None"
+    if l.impute_missing and l.missing_output_value is None:
+      mv = _f32([lo + (hi - lo) * 0.3125])[0]
+      l.missing_output.assign(np.asarray([[mv]], dtype=np.float32))
+      mo = "(Some %s)" % cq(mv)
+    raws.append("(RPwl %s %s)" % (cql(col), mo))
+  n = len(desc["features"])
+  if lattice:
+    l = layers["tfl_lattice_0"]
+    sizes = [f["ls"] for f in desc["features"]]
+    lo, hi = (0.0, 1.0) if m["output_calibration"] else _span(m["output_min"], m["output_max"])
+    flat = []
+    for idx in np.ndindex(*sizes):
+      ts = [i / (s - 1.0) for i, s in zip(idx, sizes)]
+      g = (sum(x * x for x in ts) + float(np.prod(ts))) / (n + 1.0)
+      flat.append(lo + (hi - lo) * (0.125 + 0.75 * g))
+    flat = _f32(flat)
+    l.kernel.assign(np.asarray(flat, dtype=np.float32).reshape(-1, 1))
+    raws.append("(RLat %s)" % cql(flat))
+  else:
+    l = layers["tfl_linear_0"]
+    weighted = m["output_min"] is not None or m["output_max"] is not None or m["output_calibration"]
+    w = []
+    for j, f in enumerate(desc["features"]):
+      constrained = weighted or (f["type"] == "cat" and f["pairs"]) or (f["type"] == "num" and f["dir"] != 0)
+      w.append((j + 1.0) if constrained else -0.5)
+    w = np.asarray(w, dtype=np.float64)
+    if weighted:
+      w = w / w.sum()
+    else:
+      w = w * 0.25
+    w = _f32(w)
+    l.kernel.assign(np.asarray(w, dtype=np.float32).reshape(-1, 1))
+    b = 0.0
+    if l.use_bias:
+      b = 0.375
+      l.bias.assign(np.asarray(b, dtype=np.float32).reshape(l.bias.shape))
+    raws.append("(RLin %s %s)" % (cql(w), cq(b)))
+  if "tfl_output_calib" in layers:
+    l = layers["tfl_output_calib"]
+    lo, hi = _span(m["output_min"], m["output_max"])
+    nk = l.kernel.shape[0]
+    t = np.linspace(0.0, 1.0, nk)
+    outs = lo + (hi - lo) * (0.125 + 0.75 * t ** 2)
+    col = _f32([outs[0]] + list(np.diff(outs)))
+    l.kernel.assign(np.asarray(col, dtype=np.float32).reshape(-1, 1))
+    raws.append("(RPwl %s None)" % cql(col))
+  for v in model.trainable_variables:
+    if getattr(v, "constraint", None) is not None:
+      v.assign(v.constraint(v))
+  return raws
+
+
+def replay_case(ctx, d, c03):
+  """Re-runs one finding of the two ties on the model its desc determines."""
+  desc = d["desc"]
+  model = c03._build(desc, [])
+  if d["kind"] == "e2e_tie":
+    terms, hmod = [_e2e_term(c03, desc, model)], "H_C03E2E"
+  else:
+    terms, hmod = [t for _, t in _terms(c03, desc, model)], "H_C03Init"
+  bad, errors = common.run_coq_cases(ctx, hmod, terms, shard=4)
+  fail = None
+  if errors:
+    fail = "the comparison of Harness/%s.v could not run: %s" % (hmod, "; ".join(errors)[:300])
+  elif bad:
+    fail = ("fresh premade model differs from the model description / initial values of Props/C03.v "
+            "(Harness/%s.v, %d of %d terms)" % (hmod, len(bad), len(terms)))
+  return common.Case(d, coq=None, pred_fail=fail, klass=d["kind"])
+
+
 def init_tie(ctx, stats, c03):
   rng = random.Random(ctx.seed * 7919 + 17)
   descs = []
@@ -80,18 +230,33 @@ def init_tie(ctx, stats, c03):
     descs.append(dict(model=m, features=c03._features(rng, kind, same_size=same, max_vertices=36),
                       seed=rng.randrange(10 ** 6), ops=[]))
   terms, where = [], []
+  e2e = []
   for d in descs:
     model = c03._build(d, [])
     for what, t in _terms(c03, d, model):
       terms.append(t)
       where.append((what, d))
+    e2e.append(_e2e_term(c03, d, model))
   bad, errors = common.run_coq_cases(ctx, "H_C03Init", terms, shard=60)
+  # section H: the model description built from the CONFIG, run through the layer machine's Init, against the fresh model
+  bad2, errors2 = common.run_coq_cases(ctx, "H_C03E2E", e2e, shard=4)
+  stats["fresh_models_end_to_end_description_compared_in_coq"] = len(e2e)
   stats["fresh_models_initial_values_compared_in_coq"] = len(descs)
   stats["fresh_variables_compared_in_coq"] = len(terms)
   out = []
   if errors:
     out.append(("init-tie-broken", "the initial-value comparison could not run: %s" % "; ".join(errors)[:600],
                 {"case": {"kind": "init_tie"}}, False))
+  if errors2:
+    out.append(("e2e-tie-broken", "the end-to-end description comparison could not run: %s" % "; ".join(errors2)[:600],
+                {"case": {"kind": "e2e_tie"}}, False))
+  for i in bad2[:3]:
+    out.append(("end-to-end-description-differs",
+                "fresh premade model: the model description Props/C03.v section H quantifies over (built from the config "
+                "by Harness/H_C03E2E.v cl_of / cn_of), taken through Init of the layer machine, does not compute the "
+                "function of the freshly built Keras model, or of the model after one update (assign feasible non-linear "
+                "raw values to every variable, apply every constraint); model=%s" % (str(descs[i]["model"])[:300],),
+                {"case": {"kind": "e2e_tie", "desc": descs[i], "coq": e2e[i][:6000]}}, True))
   for i in bad[:3]:
     what, d = where[i]
     out.append(("initial-value-differs",
